@@ -18,6 +18,12 @@ Definition escape (s : text) : text := flat_map escape_char s.
 Definition escape_text_char (c : N) : list N := if c =? 13 then [38; 35; 49; 51; 59] else escape_char c.
 Definition escape_text (s : text) : text := flat_map escape_text_char s.
 
+(* attribute values with user strings (gadget.rs through xmlutil.rs escaped_attribute; repaired, finding F23): additionally tab, line feed and
+   carriage return become character references *)
+Definition escape_attr_char (c : N) : list N :=
+  if c =? 9 then [38; 35; 57; 59] else if c =? 10 then [38; 35; 49; 48; 59] else if c =? 13 then [38; 35; 49; 51; 59] else escape_char c.
+Definition escape_attr (s : text) : text := flat_map escape_attr_char s.
+
 (* XML 1.0 production [2] Char *)
 Definition xml_char (c : N) : bool :=
   (c =? 9) || (c =? 10) || (c =? 13) || ((32 <=? c) && (c <=? 55295)) || ((57344 <=? c) && (c <=? 65533)) || ((65536 <=? c) && (c <=? 1114111)).
@@ -62,3 +68,29 @@ Fixpoint xml_read (s : text) (ent : option text) (skip_lf : bool) : option text 
       end
   end.
 Definition read_back (s : text) : option text := xml_read s None false.
+
+(* ---- reader (specification): the value of an attribute delimited by double quotes (XML 1.0 section 3.3.3, CDATA type) ----
+   after end-of-line normalisation (a raw CR LF or lone CR is one LF) every raw tab / LF / CR becomes ONE SPACE; references are expanded
+   without normalisation; '<' and the delimiter are not allowed raw. *)
+Fixpoint attr_read (s : text) (ent : option text) (skip_lf : bool) : option text :=
+  match s with
+  | [] => match ent with None => Some [] | Some _ => None end
+  | c :: r =>
+      match ent with
+      | Some acc =>
+          if c =? 59 then
+            match entity_value (rev acc) with
+            | Some v => if xml_char v then option_map (cons v) (attr_read r None false) else None
+            | None => None
+            end
+          else attr_read r (Some (c :: acc)) false
+      | None =>
+          if c =? 13 then option_map (cons 32) (attr_read r None true)
+          else if (c =? 10) && skip_lf then attr_read r None false
+          else if (c =? 10) || (c =? 9) then option_map (cons 32) (attr_read r None false)
+          else if c =? 38 then attr_read r (Some []) false
+          else if (c =? 60) || (c =? 34) then None
+          else if xml_char c then option_map (cons c) (attr_read r None false) else None
+      end
+  end.
+Definition attr_read_back (s : text) : option text := attr_read s None false.
